@@ -1261,6 +1261,7 @@ func (s *Server) processPubrec(cl *Client, pk packets.Packet) error {
 	ack := s.buildAck(pk.PacketID, packets.Pubrel, 1, pk.Properties, packets.CodeSuccess) // [MQTT-4.3.3-4] ![MQTT-4.3.3-6]
 	cl.State.Inflight.DecreaseReceiveQuota()                                              // -1 RECV QUOTA
 	cl.State.Inflight.Set(ack)                                                            // [MQTT-4.3.3-5]
+	s.hooks.OnQosPublish(cl, ack, ack.Created, 0)                                         // the PUBREL replaces the PUBLISH in flight
 	return cl.WritePacket(ack)
 }
 
